@@ -348,6 +348,48 @@ def sibling_queries(propset, variants):
     return _sparse_witness(qs, 8)
 
 
+def deep_chain_nodes(depths=(17, 33), patterns=("A", "O", "AO", "OA")):
+    """one container nested `depth` times (all arrays / all objects / alternating) with a trailing sibling on each of the
+    three outermost levels: targets level bookkeeping that packs or truncates depth counters"""
+    from .shapes import Node
+    out = []
+    for depth in depths:
+        for pattern in patterns:
+            kinds = [pattern[i % len(pattern)] for i in range(depth)]
+            for root_kind in ("A", "O"):
+                ks = [root_kind] + kinds[1:]
+                node = None
+                for lvl in range(depth - 1, -1, -1):
+                    kids = [node] if node is not None else []
+                    if node is not None and lvl < 3:
+                        kids.append(Node("T"))
+                    names = [min(i, 2) for i in range(len(kids))] if ks[lvl] == "O" else []
+                    node = Node(ks[lvl], kids, names)
+                out.append((1 if root_kind == "O" else 2, node))
+    return out
+
+
+def deep_chain_queries(propset, depths=(17,), variants=("full", "skip"), patterns=("A", "AO", "OA")):
+    from . import shapes
+    qs = []
+    for root, node in deep_chain_nodes(depths, patterns):
+        if node.label().startswith("{n0:{n0:{") or node.label().startswith("[{n0:{n0:{"):
+            continue        # 17 nested objects need a 17-entry state array: no verdict in 10 minutes
+        inner = node.children[0]
+        for v in variants:
+            plan = {} if v == "full" else {id(inner): v}
+            s = shapes.full_script(node, plan=plan)
+            q = shape_script_query(propset, node, s, "deep-" + v, root, timeout=1200)
+            q.name = "deepchain.p%d.%s.depth%d.%s.%s" % (propset, "obj" if root == 1 else "arr", node_depth(node), node.label()[:24], v)
+            q.mem_gb = 3
+            qs.append(q)
+    return qs
+
+
+def node_depth(node):
+    return 1 + max([node_depth(c) for c in node.children if c.kind in ("O", "A")] + [0])
+
+
 def chain_queries(propset, tier, variants=None):
     from . import shapes
     qs = []
@@ -402,11 +444,13 @@ def plan_C06(tier):
         qs += shape_variant_queries(6, 1, 6, witness_every=3) + shape_variant_queries(6, 2, 5, witness_every=3)
         qs += chain_queries(6, tier, variants=("full", "skip", "raw"))
         qs += sibling_queries(6, ("skip", "raw"))
+        qs += deep_chain_queries(6, (17,), ("skip",))
         cfg = [(3, 5, 5, (2,)), (3, 6, 5, (1,))]
     else:
         qs += shape_variant_queries(6, 1, 8, witness_every=8) + shape_variant_queries(6, 2, 7, witness_every=8)
         qs += chain_queries(6, tier)
         qs += sibling_queries(6, ("skip", "raw", "full"))
+        qs += deep_chain_queries(6, (17, 33), ("full", "skip", "raw"))
         # deep structure with a single scalar kind: every tree up to 10 tokens, nesting up to 4
         qs += shape_variant_queries(6, 2, 10, variants=("full", "skip", "raw"), scalars=("T",), max_nest=4, witness_every=16)
         qs += shape_variant_queries(6, 1, 10, variants=("full", "skip", "raw"), scalars=("T",), max_nest=4, witness_every=16)
@@ -1317,7 +1361,7 @@ def plan_C01_full(tier):
         node = Node("T")
         for k in range(D + 1):
             node = Node("O", [node], [0])
-        s = ["GO"] + ["N", "GO"] * (D + 1) + ["LO", "LA", "N", "RAW"]     # return values ignored: keep calling after MAX_DEPTH
+        s = ["GO"] + ["N", "GO"] * (D + 1) + ["LO", "LA", "N", "RAW", "RS", "VF"]     # return values ignored: keep calling after MAX_DEPTH
         q = shape_script_query(1, node, s, "too-deep", 1, D=D, checks="mem", extra={"MODE": 3})
         q.name += ".D%d" % D
         qs.append(q)
@@ -1325,11 +1369,30 @@ def plan_C01_full(tier):
         for k in range(D):
             node = Node("O", [node], [0])
         node = Node("A", [node], [])
-        s = ["GA"] + ["N", "GO"] * D + ["LO", "LA", "N", "RAW"]
+        s = ["GA"] + ["N", "GO"] * D + ["LO", "LA", "N", "RAW", "RS", "VF"]
         q = shape_script_query(1, node, s, "too-deep", 2, D=D, checks="mem", extra={"MODE": 3})
         q.name += ".D%d" % D
         qs.append(q)
     qs.append(leaf_query("check_boundary"))
+    # reset / verify exactly AT the depth limit (depth == max_depth), state array of exactly max_depth entries
+    for D in (1, 2, 3):
+        node = Node("T")
+        for k in range(D):
+            node = Node("O", [node], [0])
+        s = ["GO"] + ["N", "GO"] * (D - 1) + ["RS"] + ["GO"] + ["N", "GO"] * (D - 1) + ["VF", "GO", "N"]
+        q = shape_script_query(1, node, s, "at-limit", 1, D=D, checks="mem", extra={"MODE": 3})
+        q.name += ".D%d" % D
+        qs.append(q)
+        node = Node("T")
+        for k in range(D - 1):
+            node = Node("O", [node], [0])
+        node = Node("A", [node], [])
+        s = ["GA"] + ["N", "GO"] * (D - 1) + ["RS"] + ["GA"] + ["N", "GO"] * (D - 1) + ["VF", "GA", "N"]
+        q = shape_script_query(1, node, s, "at-limit", 2, D=D, checks="mem", extra={"MODE": 3})
+        q.name += ".D%d" % D
+        qs.append(q)
+    for n, root in ((2, 1), (2, 2), (3, 2), (4, 2)):
+        qs.append(doc_query("C01", 1, n, 1, root, checks="mem"))
     if tier != "quick":
         qs += wrong_op_queries(1, "quick")
         # max_depth 255 with a state array of exactly 255 entries: 255 nested objects accepted, 256 => MAX_DEPTH_OBJECT,
